@@ -233,7 +233,7 @@ func (w *World) Boot() error {
 		// the process is killed while it starts up (restore in progress)
 		kill := w.BootKillStep
 		w.BootKillStep = 0
-		if sim.Run(func() bool { return sim.Step >= kill }, true) == simrt.Stopped {
+		if sim.RunToStep(kill, true) == simrt.Stopped {
 			w.BootKilled = true
 			return nil
 		}
